@@ -133,6 +133,33 @@ func P(pos string) {
 	sched.FlushAccesses(pos)
 }
 
+// AllStatements switches on statement-level scheduling for whole packages (keys: package
+// directories relative to the repository root, e.g. "pkg/encryption"): under the wide
+// instrumentation every statement of such a package is a scheduling point, also those that touch no
+// recorded location — needed where the shared object is reached through a local variable (a value
+// taken out of a shared container and then used over several statements). Set before an
+// exploration starts, never changed while threads run.
+var AllStatements map[string]bool
+
+// PQ is P for the wide mode: if the statement's hooks recorded nothing (the operands turned out to be
+// local copies) it is still a scheduling point where the package is switched on.
+func PQ(pkg, pos string) {
+	if !Enabled || sched.Active() == nil {
+		return
+	}
+	if !sched.FlushAccesses(pos) && AllStatements != nil && AllStatements[pkg] && live() {
+		sched.Point(pos)
+	}
+}
+
+// Q is inserted (wide mode) before every statement for which no access hook was generated.
+func Q(pkg, pos string) {
+	if AllStatements == nil || !AllStatements[pkg] || !live() {
+		return
+	}
+	sched.Point(pos)
+}
+
 func describe(v reflect.Value) string {
 	switch v.Kind() {
 	case reflect.Map:
